@@ -591,7 +591,9 @@ func runRacePass(h *hz.H) {
 							defer wg.Done()
 							twin := enum.BuildGo(d)
 							<-start
-							got[k] = all[oi].f(shared, twin)
+							if p := hz.Catch(func() { got[k] = all[oi].f(shared, twin) }); p != nil {
+								got[k] = fmt.Sprintf("PANIC: %v", p)
+							}
 						}()
 					}
 					close(start)
@@ -602,7 +604,7 @@ func runRacePass(h *hz.H) {
 					}
 					h.Eval(true, hz.Hash("C11B", string(md.FullName()), fmt.Sprint(variant), strings.Join(names, "|")))
 					for k := range tp {
-						if got[k] != want[k] && !strings.HasPrefix(all[tp[k]].name, "Marshal") {
+						if got[k] != want[k] {
 							h.ViolateMin(fmt.Sprintf("C11/B/result-differs-from-sequential/%s/%s", md.FullName(), all[tp[k]].name), fmt.Sprintf("concurrent %v on a shared %s: %s observed %s, sequentially %s", names, md.FullName(), all[tp[k]].name, clipS(got[k]), clipS(want[k])), c11case{Part: "B", Type: string(md.FullName()), Variant: variant, Ops: names}, len(tp))
 						}
 					}
